@@ -63,13 +63,21 @@ def make_form(rng, i):
         f.survey.insert(rng.randint(0, len(f.survey)), Row("raw", None, None, {"hint": "just a comment"}))
     elif k == 2:  # table-list
         ln = next(iter(f.choices))
-        g = Row("group", "begin group", f"tl{i}", {"appearance": rng.choice(["table-list", "table-list compact"])})
+        sk = rng.choice(["group", "group", "repeat"])  # table-list is honoured on repeats too
+        g = Row(sk, f"begin {sk}", f"tl{i}", {"appearance": rng.choice(["table-list", "table-list compact"])})
         if rng.random() < 0.7:
             g.cells["label"] = "TL"
         g.children = [Row("q", f"{rng.choice(['select_one', 'select_multiple'])} {ln}", f"tl{i}_{j}", {"label": f"t{j}"}) for j in range(rng.randint(1, 3))]
         if rng.random() < 0.3:
             g.children.insert(0, Row("q", "note", f"tl{i}_n", {"label": "before"}))
         place(g)
+        # selects that FOLLOW the table-list section (same list and another one) keep their own appearance
+        holder = next((x.children for x, _ in f.walk() if x.is_section() and g in x.children), f.survey)
+        at = holder.index(g) + 1
+        other = [l for l in f.choices if l != ln]
+        holder.insert(at, Row("q", f"select_one {ln}", f"tl{i}_after", {"label": "after", "appearance": rng.choice(["minimal", "quick", "likert"])}))
+        if other and rng.random() < 0.6:
+            holder.insert(at + 1, Row("q", f"select_multiple {other[0]}", f"tl{i}_after2", {"label": "after2"}))
     elif k == 3:  # repeat directly after nested group; count helper inside group
         inner = Row("group", "begin group", f"ng{i}", {"label": "ng"}, [Row("group", "begin group", f"ng{i}b", {"label": "b"}, [Row("q", "text", f"ng{i}q", {"label": "q"})])])
         rep = Row("repeat", "begin repeat", f"rp{i}", {"label": "rp", "repeat_count": "1 + 2"}, [Row("q", "integer", f"rp{i}q", {"label": "q"})])
